@@ -127,15 +127,21 @@ where
       state.p = state.p.saturating_sub(delta);
     }
 
+    // Making room demotes a resident to a ghost list: from then on the policy no longer
+    // tracks it, so it must be handed back as a victim or it could never be evicted.
+    let mut demoted = None;
     let t2_cost = state.t2.current_total_cost();
     if state.t1.current_total_cost() + t2_cost >= self.capacity {
-      state.replace(self.capacity, key_in_b2);
+      demoted = state.replace(self.capacity, key_in_b2);
     }
 
     // Insert the new item into T1.
     state.t1.push_front(key.clone(), cost);
 
-    AdmissionDecision::Admit
+    match demoted {
+      Some((victim, _)) => AdmissionDecision::AdmitAndEvict(vec![victim]),
+      None => AdmissionDecision::Admit,
+    }
   }
 
   fn on_remove(&self, key: &K) {
